@@ -138,7 +138,9 @@ def oracle_alpha(res, pid, cases):
 
 
 
-TRANSFORMS_ON = dict(remove_annotations=True, remove_pass=True, remove_literal_statements=True, combine_imports=True, remove_object_base=True, convert_posargs_to_args=True,
+# convert_posargs_to_args is the one structural transform that runs AFTER the names are assigned (positional-only parameters are renamed in place
+# first, then lose their marker): it is kept off here, the transformed tree would otherwise not be what the renamer saw
+TRANSFORMS_ON = dict(remove_annotations=True, remove_pass=True, remove_literal_statements=True, combine_imports=True, remove_object_base=True, convert_posargs_to_args=False,
                      preserve_shebang=True, remove_asserts=False, remove_debug=False, remove_explicit_return_none=True, remove_builtin_exception_brackets=True, constant_folding=True)
 
 
